@@ -10,6 +10,7 @@ import (
 	"strings"
 
 	"github.com/grafana/cog/internal/ast"
+	"github.com/grafana/cog/internal/ast/compiler"
 	"github.com/grafana/cog/internal/orderedmap"
 )
 
@@ -23,6 +24,9 @@ type copyJob struct {
 	Seed    int64  `json:"seed"`
 	Depth   int    `json:"depth"`
 	AnyMode string `json:"any"` // "scalar" | "container"
+	// "" = the DeepCopy method; "process_empty" / "process_noop" (root Schema only) = the copy that
+	// compiler.Passes.Process hands to a transformation chain (an empty chain / a chain of one no-op pass)
+	Via string `json:"via"`
 }
 
 var copyRoots = map[string]reflect.Type{
@@ -409,13 +413,28 @@ func init() {
 				f := &filler{rng: rand.New(rand.NewSource(job.Seed)), anyMode: job.AnyMode}
 				orig := reflect.New(t)
 				f.fill(orig.Elem(), job.Depth)
-				m := orig.MethodByName("DeepCopy")
-				if !m.IsValid() {
-					return "PANIC\tno DeepCopy on " + job.Root
-				}
-				res := m.Call(nil)[0]
 				cp := reflect.New(t)
-				cp.Elem().Set(res)
+				if job.Via == "" {
+					m := orig.MethodByName("DeepCopy")
+					if !m.IsValid() {
+						return "PANIC\tno DeepCopy on " + job.Root
+					}
+					cp.Elem().Set(m.Call(nil)[0])
+				} else {
+					schema, ok := orig.Interface().(*ast.Schema)
+					if !ok {
+						return "PANIC\tvia " + job.Via + " needs root Schema"
+					}
+					passes := compiler.Passes{}
+					if job.Via == "process_noop" {
+						passes = compiler.Passes{&compiler.PrefixObjectNames{Prefix: ""}}
+					}
+					out, err := passes.Process(ast.Schemas{schema})
+					if err != nil || len(out) != 1 {
+						return "PANIC\tPasses.Process: " + fmt.Sprint(err)
+					}
+					cp.Elem().Set(reflect.ValueOf(*out[0]))
+				}
 				l := &labeller{ids: map[uintptr]int{}}
 				ho := l.hval(orig.Elem())
 				hc := l.hval(cp.Elem())
